@@ -78,6 +78,13 @@ def mutations(rng, b, sites, small):
             m = bytearray(b)
             force(m, off, n, v)
             yield "site%d=%s" % (min(i, 3), "0" if v == 0 else "max" if v == (1 << (8 * n)) - 1 else "x"), bytes(m)
+        # a few bytes more or less than the consistent value: the announced end falls inside a descriptor or its header
+        honest = int.from_bytes(b[off : off + n], "big")
+        for d in (-9, -8, -7, -6, -5, -4, -3, -2, -1, 1, 2, 3, 4, 5):
+            if 0 <= honest + d < 1 << (8 * n):
+                m = bytearray(b)
+                force(m, off, n, honest + d)
+                yield "site%d_off_by_few" % min(i, 3), bytes(m)
     pairs = [(i, j) for i in range(len(sites)) for j in range(i + 1, len(sites))]
     if small and len(pairs) > 6:
         pairs = rng.sample(pairs, 6)
